@@ -324,6 +324,7 @@ class Roles(object):
     def __init__(self, text, tm):
         self.role = {}          # ordinal -> role
         self.in_deco = set()    # ordinals inside a decorator expression
+        self.first_body_deco = set()   # ... of a def/class that is the first statement of a for/with/except/def block
         self.tree = tree = relayout.parse_quiet(text)
         self.tm = tm
 
@@ -346,6 +347,14 @@ class Roles(object):
                     put((n.lineno, n.col_offset), role)
 
         for node in ast.walk(tree):
+            if isinstance(node, (ast.For, ast.AsyncFor, ast.With, ast.AsyncWith, ast.ExceptHandler, ast.FunctionDef,
+                                 ast.AsyncFunctionDef)) and node.body:
+                for d in getattr(node.body[0], 'decorator_list', []):
+                    for n in ast.walk(d):
+                        if isinstance(n, ast.Name):
+                            o = tm.id_ord.get((n.lineno, n.col_offset))
+                            if o is not None:
+                                self.first_body_deco.add(o)
             if isinstance(node, (ast.FunctionDef, ast.AsyncFunctionDef, ast.ClassDef)):
                 name_after((node.lineno, node.col_offset), node.name,
                            'class-name' if isinstance(node, ast.ClassDef) else 'def-name')
@@ -548,10 +557,11 @@ def label(diff, A, B, ra=None, rb=None):
     seen.sort(key=lambda f: PRIORITY.index(f) if f in PRIORITY else -1)
     feat = seen[0] if seen else 'layout-elsewhere'
     details_role = bind_role
-    if feat == 'decorator-line' and bind_role in ('for-target', 'with-target', 'except-name', 'param'):
-        # one mechanism: these bindings all become visible at the position of the first statement of the block
-        bind_role = 'block-entry-binding'
     mech = '%s:%s-%s' % (feat, bind_role or 'unknown-binding', what)
+    if feat == 'decorator-line' and read_o is not None and read_o in ra.first_body_deco:
+        # one mechanism: the read is in a decorator of the first statement of a for/with/except/def block, whose
+        # entry bindings (target, parameters, except name) all become visible at "the first statement" of it
+        mech = 'decorator-line:block-entry-binding-visibility'
     return mech, {'features_differing': seen, 'binding_ordinals': bind_os[:4], 'read_ordinal': read_o,
                   'binding_role': details_role}
 
@@ -666,7 +676,7 @@ class Monitor(object):
             what = describe(d, mech, case)
             self.p.violation(mech, what, case)
 
-    def pair(self, A, text2, meta, filename, root, key, applied):
+    def pair(self, A, text2, meta, filename, root, key, applied, force_nontrivial=False):
         """compare the analysis A of the base text with the analysis of text2; -> True if compared"""
         p = self.p
         p.count('pairs_generated')
@@ -693,7 +703,7 @@ class Monitor(object):
             p.hist('layout_features_applied', f, n)
         p.hist('layout_base', meta.get('base'))
         nfeat = sum(1 for f, n in applied.items() if n) if meta.get('base') != 'ast.unparse' else 2
-        nontrivial = nfeat >= 2 and len(A.reads) >= 5 and len(A.rows) >= 1
+        nontrivial = force_nontrivial or (nfeat >= 2 and len(A.reads) >= 5 and len(A.rows) >= 1)
         p.case(key, nontrivial=nontrivial)
         if diffs:
             p.count('pairs_with_differences')
@@ -973,7 +983,8 @@ def replay(run, path):
                 continue
             A = analyse(a, filename, root)
             meta = {k: c.get(k) for k in ('kind', 'path', 'index', 'seed', 'root_kind', 'base', 'layout', 'layout_rng')}
-            mon.pair(A, b, meta, filename, root, 'replay:%s:%s' % (c.get('path') or c.get('index'), c.get('layout')), {'replay': 2})
+            mon.pair(A, b, meta, filename, root, 'replay:%s:%s' % (c.get('path') or c.get('index'), c.get('layout')), {'replay': 2},
+                     force_nontrivial=True)
     finally:
         proj.close()
     out = part.dump()
